@@ -61,6 +61,14 @@ CLAIMS["C11"] = {
     "design_ref": "DESIGN.md §5 C11",
 }
 
+CLAIMS["C13"] = {
+    "technique": "static analysis: field-cursor bound inference (max over guarded increments and constant stores vs declared array extent), per-iteration longest-path store count in copy_chars vs read-budget divisors, append-destination rule",
+    "text": "Decides the memory clauses of input framing for every byte stream at once: cursor fields indexing fixed arrays of the connection record cannot exceed the last valid index at any use; "
+            "copy_chars' worst-case expansion per input byte (longest acyclic iteration path) is covered by every telnet read budget and the scratch buffers match the text buffer; new input is appended at text_end. "
+            "Independence of delivered lines from packet boundaries and backspace editing are behavioural and not decided; text_end arithmetic is reported as undecided.",
+    "design_ref": "DESIGN.md §5 C13",
+}
+
 NOT_APPLICABLE = {
     "C18": "Line/trace correctness is a value-level question about run-length tables (encode in the code generator, decode in find_line); no clause of it is visible in the shape of the code, so static analysis gives no verdict (DESIGN.md §6).",
 }
